@@ -28,7 +28,8 @@ from feems.components_model.component_electric import ElectricComponent
 from feems.types_for_feems import TypeComponent, TypePower, Power_kW, SwbId, EmissionType
 
 CURVE_THEOREMS = {
-    "C06": ["efficiency_curve_within", "efficiency_curve_through_points"],
+    "C06": ["efficiency_curve_within", "efficiency_curve_through_points", "inverse_exact_at_samples", "inverse_monotone",
+            "interp_inverse_modelled", "table_strict", "knotOut_rising"],
     "C07": ["curve_through_points", "curve_single", "curve_between_points", "curve_monotone", "curve_two_points_linear"],
     "C09": ["emission_curve_through_points", "emission_curve_single", "emission_curve_nonneg"],
 }
